@@ -816,9 +816,18 @@ class CSSStyleSheet(cssutils.stylesheets.StyleSheet):
                             index = len(self._cssRules) - i
                             break
                 else:
-                    # find first point to insert
+                    # find first point to insert, but after @charset, @import
+                    # and @namespace
+                    last = -1
                     for i, r in enumerate(self._cssRules):
                         if r.type in (
+                            r.CHARSET_RULE,
+                            r.IMPORT_RULE,
+                            r.NAMESPACE_RULE,
+                        ):
+                            last = i
+                    for i, r in enumerate(self._cssRules):
+                        if i > last and r.type in (
                             r.MEDIA_RULE,
                             r.PAGE_RULE,
                             r.STYLE_RULE,
